@@ -24,7 +24,8 @@ from .. import gens_c08 as G
 
 RULE = ("systems: LAMMPS-compatible cells (orthogonal/triclinic, any origin; rotated cells too for table/POSCAR), 1-12 "
         "atoms at relative coordinates in [-2,3] incl. exact 0, 1/2, 1, all 8 pbc, 1-4 types with gaps, symbols "
-        "absent/present/partial, per-style properties, velocities, free extras of rank 0-3; all 18 atom styles + "
+        "absent/present/partial, per-style properties, velocities, free extras of rank 0-3 (table/dump file: also "
+        "shapes with unit dimensions (1,), (1,1), (1,1,1), (1,3), (3,1), (2,1), (1,2,1)); all 18 atom styles + "
         "hybrid pairs, 8 unit styles, 4 float formats, pos/spos/upos/supos columns, POSCAR direct/Cartesian with scale "
         "1, 0.5, 3.7, a.  Non-trivial: (data/dump) tilted or shifted cell AND an atom outside the cell AND (style != "
         "atomic or units != metal or scaled/unwrapped columns) AND a carried non-position property of rank >= 1; "
@@ -277,6 +278,23 @@ def same_system(a, b, what, skip=()):
         va, vb = np.asarray(a.atoms.view[k]), np.asarray(b.atoms.view[k])
         require(va.shape == vb.shape and va.dtype == vb.dtype and np.array_equal(va, vb),
                 lambda: '%s: property %r differs:\n%r\nvs\n%r' % (what, k, va.tolist(), vb.tolist()))
+
+
+def shape_labels(S, written, loaded_with_prop_info=True):
+    """'unit_dim_shape': a written free property whose per-atom shape has a dimension of length 1 is read back through
+    the writer's prop_info; 'one_column_shape': such a property with exactly one component ((1,), (1,1), (1,1,1)),
+    i.e. a single table column whose shape is known only from prop_info"""
+    labs = set()
+    if not loaded_with_prop_info:
+        return labs
+    for k in written:
+        if k in S['props']:
+            shape = S['meta'][k]['shape']
+            if len(shape) >= 1 and 1 in shape:
+                labs.add('unit_dim_shape')
+                if int(np.prod(shape)) == 1:
+                    labs.add('one_column_shape')
+    return labs
 
 
 def cell_labels(S, sysd):
@@ -547,7 +565,7 @@ def dump_cases(draw):
     nstd = draw(st.integers(0, 3))
     want = [G.DUMP_STD[(k0 + 3 * i) % len(G.DUMP_STD)] for i in range(nstd)]
     want = [w for i, w in enumerate(want) if w not in want[:i]]
-    sysd = draw(G.systems_for(True, tuple(want), (0, 2), True))
+    sysd = draw(G.systems_for(True, tuple(want), (0, 2), True, True))
     names = [p['name'] for p in sysd['props'] if p['name'] != 'atom_id']
     mode = draw(st.sampled_from(['all', 'all', 'list', 'list', 'list']))
     prop_name = None
@@ -683,6 +701,7 @@ def oracle_dump(case):
         rank1 = any(len(S['meta'][k]['shape']) >= 1 for k in written if k in S['props'])
         if rank1:
             labels.add('rank1_carried')
+        labels |= shape_labels(S, written, use_pi)
         if (labels & {'tilted', 'origin'}) and 'outside' in labels and (units != 'metal' or firstpos != 'pos') and rank1:
             labels.add('nt')
         return labels
@@ -701,7 +720,7 @@ def table_cases(draw):
     want = []
     if draw(_bool):
         want.append(('velocity', (3,), 'f', 'velocity'))
-    sysd = draw(G.systems_for(False, tuple(want), (1, 3), True))
+    sysd = draw(G.systems_for(False, tuple(want), (1, 3), True, True))
     names = ['atype', 'pos'] + [p['name'] for p in sysd['props']]
     mode = draw(st.sampled_from(['all', 'list', 'list']))
     entries = None
@@ -835,6 +854,7 @@ def oracle_table(case):
         if pert['source'] in ('bytesio', 'file'):
             labels.add('stream')
         rank1 = any(len(S['meta'][k]['shape']) >= 1 for k in written if k in S['props'])
+        labels |= shape_labels(S, written)
         if rank1 and (conv or opt['header'] or pert['comments'] or perm_moves):
             labels.add('nt')
         return labels
@@ -1103,11 +1123,13 @@ CLAUSES = [
                 "re-applied, every style column and the Velocities section, all styles/units/formats; shuffled lines, "
                 "comments, blank lines, string/path/stream give the identical system"),
     Clause('dump_file', oracle_dump, dump_cases, quick=2000, thorough=36000,
-           min_share=_Guards({'nt': 0.09, 'shuffled': 0.08, 'with_prop_info': 0.16, 'own_ids': 0.09, 'scaled_cols': 0.05}, 0),
+           min_share=_Guards({'nt': 0.09, 'shuffled': 0.08, 'with_prop_info': 0.16, 'own_ids': 0.09, 'scaled_cols': 0.05,
+                              'unit_dim_shape': 0.23, 'one_column_shape': 0.15}, 0),
            desc="load('atom_dump', dump('atom_dump')): cell from bounding box, pbc flags, ids, types, pos/spos/upos/supos, "
                 "standard columns with units and free properties with their shape through the returned prop_info"),
     Clause('table', oracle_table, table_cases, quick=1800, thorough=30000,
-           min_share=_Guards({'nt': 0.2, 'rank2plus': 0.2, 'unit_conv': 0.14, 'header': 0.15, 'shuffled': 0.04}, 0),
+           min_share=_Guards({'nt': 0.2, 'rank2plus': 0.2, 'unit_conv': 0.14, 'header': 0.15, 'shuffled': 0.04,
+                              'unit_dim_shape': 0.26, 'one_column_shape': 0.18}, 0),
            desc="load('table', dump('table'), prop_info=<returned>): every property with shape, unit/scaled conversion "
                 "undone, header line, comments, blank lines, id column"),
     Clause('poscar', oracle_poscar, poscar_cases, quick=2000, thorough=36000,
